@@ -76,7 +76,13 @@ func (c *constExpr) Exit(node *Node) {
 			}
 
 			out := fn.Call(in)
-			constNode := &ConstantNode{Value: out[0].Interface()}
+			value := out[0].Interface()
+			if value == nil {
+				// The compiler cannot hold nil in the constant pool.
+				patch(&NilNode{})
+				return
+			}
+			constNode := &ConstantNode{Value: value}
 			patch(constNode)
 		}
 	}
